@@ -6,6 +6,26 @@ HOOK_COMMITS = subprocess.run(["git", "-C", "/repo", "log", "--format=%H", "--gr
 
 # id -> (level, technique, text, note, design_ref)
 CHECKS = {
+ "C03": ("exploration",
+         "deterministic simulation used as an enumerator: the finite RowSet space visited by seeded permutation (consumed completely by the thorough tier), random larger sets, controlled key sampler, refinement against a row-set model with the ReadRows chunk state machine",
+         "ReadRows results for RowSets over an adversarial key universe (incl. tables spanning several response messages, limits and row-dropping filters) are compared with the row-set model on all engines; SampleRowKeys is checked after histories with deletes, family drops and rule-less read-modify-writes.",
+         "Trusted: the row-set model and chunk decoder. No schedule is involved (that is C18).",
+         "DESIGN.md 6/C03"),
+ "C12": ("exploration",
+         "deterministic simulation: seeded row histories and predicate trees, metamorphic oracle (predicate_matched vs. a filtered ReadRows in the same state) plus the independent filter evaluator and the data model",
+         "Every CheckAndMutateRow is checked three ways: against a filtered read of the same row in the same state, against the independent evaluator, and against the data model for the selected branch with a full read-back.",
+         "Trusted: the filter evaluator and data model; the metamorphic oracle is independent of both.",
+         "DESIGN.md 6/C12"),
+ "C17": ("exploration",
+         "deterministic simulation: one pre-drawn tape executed against three servers (btree, leveldb-memory, leveldb-disk) with identical sampler draws, normalised responses compared pairwise",
+         "Sequential admin+data programs including reads that fail part-way, limits, drops and re-created tables must be answered identically by the three engines.",
+         "Trusted: the normalisation (status code, rows, per-entry statuses, schemas; not message texts).",
+         "DESIGN.md 6/C17"),
+ "C20": ("exploration",
+         "deterministic simulation with fault injection: structure- and byte-level perturbed requests to every RPC/endpoint, failing stream sends, injected fail-stop store errors, and concurrent admin/data mixes under the seeded scheduler; panics, deadlock/livelock verdicts, watchdog, well-formedness of every answer, and a health probe afterwards",
+         "Four sub-workloads (Bigtable single requests, Bigtable concurrent mixes, GCS single requests incl. batch sub-response equality, GCS concurrent mixes) with the oracle: no panic, a gRPC status or well-formed HTTP error, no hang, service still works, kept data intact, lock map empty. The data-race clause is NOT decided (a one-task-at-a-time simulator cannot see races).",
+         "Trusted: the transport stubs (a handler panic is observed directly). One recorded finding (deleted table object vs. re-created table on disk).",
+         "DESIGN.md 6/C20"),
  "C02": ("exploration",
          "deterministic simulation: seeded request programs with protocol-level faults (lost responses, duplicated and re-sent ranges, status queries, server restart between chunks), simulated wall clock, refinement against an object model with full-state read-back",
          "Uploads by all three protocols under the perturbations a real client and network produce are followed by downloads through the three URL forms; every response and, at a drawn frequency and after restarts, the full state (listing, metadata, media of every object) are compared with the object model on both stores.",
